@@ -169,73 +169,73 @@ theorem fragSize_le (c : Cfg) (x : In) (j : Nat)
 
 /-! ### `fragmentsFail = none` is exactly `FragmentsOk` -/
 
+theorem okFirst_iff (x : In) (fs : List Obs) :
+    okFirst x fs = true ↔ ∀ f, fs.head? = some f → f.types = x.blocks.map (·.type) := by
+  cases fs with
+  | nil => simp [okFirst]
+  | cons f fs => simp [okFirst]
+
+theorem okRepl_iff (x : In) (fs : List Obs) :
+    okRepl x fs = true ↔ ∀ f ∈ fs, ∀ b ∈ x.blocks, b.rep = true → b.type ∈ f.types := by
+  simp only [okRepl, List.all_eq_true, Bool.or_eq_true, Bool.not_eq_true', List.contains_eq_mem,
+    decide_eq_true_eq]
+  constructor
+  · intro h f hf b hb hr
+    rcases h f hf b hb with h | h
+    · rw [hr] at h; cases h
+    · exact h
+  · intro h f hf b hb
+    cases hr : b.rep with
+    | false => exact Or.inl rfl
+    | true => exact Or.inr (h f hf b hb hr)
+
+theorem okCopies_iff (x : In) (fs : List Obs) : okCopies x fs = true ↔
+    ∀ f ∈ fs, f.blocksOk = true ∧ f.types.Nodup ∧ ∀ t ∈ f.types, t ∈ x.blocks.map (·.type) := by
+  simp only [okCopies, List.all_eq_true, Bool.and_eq_true, decide_eq_true_eq, List.contains_eq_mem]
+  constructor
+  · intro h f hf
+    obtain ⟨⟨a, b⟩, c⟩ := h f hf
+    exact ⟨a, b, c⟩
+  · intro h f hf
+    obtain ⟨a, b, c⟩ := h f hf
+    exact ⟨⟨a, b⟩, c⟩
+
+theorem okSlices_iff (x : In) (start : Nat) (fs : List Obs) : okSlices x start fs = true ↔
+    ∀ f ∈ fs, f.len = f.data.length ∧ f.data = slice x.payload (f.off - start) f.len := by
+  simp [okSlices, List.all_eq_true]
+
+theorem okSize_iff (x : In) (fs : List Obs) : okSize x fs = true ↔ ∀ f ∈ fs, f.size ≤ x.mtu := by
+  simp [okSize, List.all_eq_true]
+
+theorem okValid_iff (fs : List Obs) : okValid fs = true ↔ ∀ f ∈ fs, f.valid = true := by
+  simp [okValid, List.all_eq_true]
+
+theorem okFlag_iff (x : In) (fs : List Obs) :
+    okFlag x fs = true ↔ ∀ f ∈ fs, f.flags = x.flags ||| flagIsFragment := by
+  simp [okFlag, List.all_eq_true]
+
+theorem okIdent_iff (fs : List Obs) : okIdent fs = true ↔ ∀ f ∈ fs, f.identOk = true := by
+  simp [okIdent, List.all_eq_true]
+
+theorem okTotal_iff (total : Nat) (fs : List Obs) : okTotal total fs = true ↔ ∀ f ∈ fs, f.total = total := by
+  simp [okTotal, List.all_eq_true]
+
+theorem ite_some_none (c : Prop) [Decidable c] (s : String) (r : Option String) :
+    (if c then some s else r) = none ↔ ¬ c ∧ r = none := by
+  by_cases h : c <;> simp [h]
+
+theorem not_bnot_eq_true (b : Bool) : ¬ ((!b) = true) ↔ b = true := by cases b <;> simp
+
 theorem fragmentsFail_none_iff (x : In) (start total : Nat) (fs : List Obs) :
     fragmentsFail x start total fs = none ↔ FragmentsOk x start total fs := by
-  have hfirst : okFirst x fs = true ↔ ∀ f, fs.head? = some f → f.types = x.blocks.map (·.type) := by
-    cases fs with
-    | nil => simp [okFirst]
-    | cons f fs => simp [okFirst]
-  have hrepl : okRepl x fs = true ↔ ∀ f ∈ fs, ∀ b ∈ x.blocks, b.rep = true → b.type ∈ f.types := by
-    simp only [okRepl, List.all_eq_true, Bool.or_eq_true, Bool.not_eq_true', List.contains_eq_mem,
-      decide_eq_true_eq]
-    constructor
-    · intro h f hf b hb hr
-      rcases h f hf b hb with h | h
-      · rw [hr] at h; cases h
-      · exact h
-    · intro h f hf b hb
-      cases hr : b.rep with
-      | false => exact Or.inl rfl
-      | true => exact Or.inr (h f hf b hb hr)
-  have hcop : okCopies x fs = true ↔
-      ∀ f ∈ fs, f.blocksOk = true ∧ f.types.Nodup ∧ ∀ t ∈ f.types, t ∈ x.blocks.map (·.type) := by
-    simp only [okCopies, List.all_eq_true, Bool.and_eq_true, decide_eq_true_eq, List.contains_eq_mem]
-    constructor
-    · intro h f hf
-      obtain ⟨⟨a, b⟩, c⟩ := h f hf
-      exact ⟨a, b, c⟩
-    · intro h f hf
-      obtain ⟨a, b, c⟩ := h f hf
-      exact ⟨⟨a, b⟩, c⟩
-  have hsl : okSlices x start fs = true ↔
-      ∀ f ∈ fs, f.len = f.data.length ∧ f.data = slice x.payload (f.off - start) f.len := by
-    simp [okSlices, List.all_eq_true]
-  have hsz : okSize x fs = true ↔ ∀ f ∈ fs, f.size ≤ x.mtu := by simp [okSize, List.all_eq_true]
-  have hfl : okFlag x fs = true ↔ ∀ f ∈ fs, f.flags = x.flags ||| flagIsFragment := by
-    simp [okFlag, List.all_eq_true]
-  have hid : okIdent fs = true ↔ ∀ f ∈ fs, f.identOk = true := by simp [okIdent, List.all_eq_true]
-  have htot : okTotal total fs = true ↔ ∀ f ∈ fs, f.total = total := by simp [okTotal, List.all_eq_true]
-  have hemp : fs.isEmpty = false ↔ fs ≠ [] := by cases fs <;> simp
+  have hemp : ¬ (fs.isEmpty = true) ↔ fs ≠ [] := by cases fs <;> simp
   unfold fragmentsFail
+  simp only [ite_some_none, not_bnot_eq_true, hemp, okFirst_iff, okRepl_iff, okCopies_iff, okSlices_iff,
+    okSize_iff, okValid_iff, okFlag_iff, okIdent_iff, okTotal_iff, and_true]
   constructor
-  · intro h
-    split at h; · simp at h
-    rename_i h0
-    split at h; · simp at h
-    rename_i h1
-    split at h; · simp at h
-    rename_i h2
-    split at h; · simp at h
-    rename_i h3
-    split at h; · simp at h
-    rename_i h4
-    split at h; · simp at h
-    rename_i h5
-    split at h; · simp at h
-    rename_i h6
-    split at h; · simp at h
-    rename_i h7
-    split at h; · simp at h
-    rename_i h8
-    split at h; · simp at h
-    rename_i h9
-    simp only [Bool.not_eq_true', Bool.not_eq_false, Bool.not_eq_true] at h0 h1 h2 h3 h4 h5 h6 h7 h8 h9
-    exact ⟨hemp.mp h0, hsz.mp h1, hfl.mp h2, hid.mp h3, htot.mp h4, h5, hfirst.mp h6, hrepl.mp h7,
-      hcop.mp h8, hsl.mp h9⟩
-  · intro h
-    obtain ⟨n, s, fl, id, t, p, fi, r, cp, sl⟩ := h
-    have p' : okPart x start fs = true := p
-    simp [hemp.mpr n, hsz.mpr s, hfl.mpr fl, hid.mpr id, htot.mpr t, p', hfirst.mpr fi, hrepl.mpr r,
-      hcop.mpr cp, hsl.mpr sl]
+  · rintro ⟨n, s, va, fl, id, t, p, fi, r, cp, sl⟩
+    exact ⟨n, s, va, fl, id, t, p, fi, r, cp, sl⟩
+  · rintro ⟨n, s, va, fl, id, t, p, fi, r, cp, sl⟩
+    exact ⟨n, s, va, fl, id, t, p, fi, r, cp, sl⟩
 
 end Dtn7.Frag.Lemmas
